@@ -200,7 +200,7 @@ class Outcome:
             traces = [t for t, _, _, _ in rejected if t["tid"] not in explained]
             if not traces:
                 break
-            v2, st, tr, _ = validate_parallel(trace_module, traces, deviations=[f["deviation"]], chunk=1500)
+            v2, st, tr, _ = validate_parallel(trace_module, traces, deviations=[f["deviation"]], chunk=250, par=6, heap="5g")      # (rejected traces tend to be the long ones)
             self.states += st
             self.transitions += tr
             for t in traces:
